@@ -35,6 +35,13 @@ import (
 // RunUDPAssociateLoop exchanges socks5 UDP packets between a socks5 proxy client and a mieru proxy server,
 // the proxy server is connected via the PacketOverStreamTunnel.
 func RunUDPAssociateLoop(udpConn *net.UDPConn, conn *apicommon.PacketOverStreamTunnel, resolver apicommon.DNSResolver) error {
+	return runUDPAssociateLoop(udpConn, conn, resolver, nil)
+}
+
+// runUDPAssociateLoop is RunUDPAssociateLoop with an optional destination filter.
+// If allow is not nil, a packet from the socks5 proxy client is relayed
+// only when allow returns true for the destination in its header.
+func runUDPAssociateLoop(udpConn *net.UDPConn, conn *apicommon.PacketOverStreamTunnel, resolver apicommon.DNSResolver, allow func(model.AddrSpec) bool) error {
 	var udpErr atomic.Value
 
 	// addrMap maps the UDPAddr in string to the bytes in UDP associate header.
@@ -62,6 +69,11 @@ func RunUDPAssociateLoop(udpConn *net.UDPConn, conn *apicommon.PacketOverStreamT
 				udpErr.Store(err)
 				UDPAssociateErrors.Add(1)
 				return
+			}
+			if allow != nil && !allow(datagram.Addr) {
+				log.Debugf("UDP associate %v dropped packet to %v: destination is not allowed", udpConn.LocalAddr(), datagram.Addr)
+				UDPAssociateErrors.Add(1)
+				continue
 			}
 			dstAddr, err := resolveSocks5UDPAddr(context.Background(), resolver, datagram.Addr)
 			if err != nil {
